@@ -402,6 +402,10 @@ C17_RightHandler == fresh = "Handled" =>
      \E k \in 1..NH : handles[2 * k - 1].h = h.h /\ OkHandler(k, sends[i].seq, h.seq)
 C17_AtMostOnce == fresh = "Handled" =>
   LET h == handled[Len(handled)] IN Cardinality({x \in 1..Len(handled) : handled[x].tag = h.tag}) <= 1
+\* "whenever it is replaced": a Handle call -- also one made from inside the handler that is being replaced (a one-shot
+\* bootstrap handler installing the steady one) -- has returned by the end of the run (finite stand-in for "returns";
+\* a Handle that waits for a lock its own goroutine holds never does, and nothing is delivered afterwards: c17g)
+C17_HandleReturns == (fresh = "Idle" /\ Feasible) => Len(handles) % 2 = 0
 \* every inbound message that the client's reader consumed while a handler registration had completed
 \* before the broker queued it has been handed over by the time the run is quiescent
 C17_NoneDropped == Drained =>
@@ -430,7 +434,7 @@ Obs == [
   C08_StableSubs |-> C08_StableSubs, C08_NoResubUnlessDue |-> C08_NoResubUnlessDue,
   C12_DupFlag |-> C12_DupFlag, C12_SameOnRetx |-> C12_SameOnRetx, C12_NoPubAfterRel |-> C12_NoPubAfterRel,
   C12_NoQoS0Retx |-> C12_NoQoS0Retx, C12_RelHasPublish |-> C12_RelHasPublish, C12_AsSubmitted |-> C12_AsSubmitted, C15_PresetIdKept |-> C15_PresetIdKept, C05_PacketsWellFormed |-> C05_PacketsWellFormed, C19_TimeoutTyped |-> C19_TimeoutTyped, C19_ConnectCtxErr |-> C19_ConnectCtxErr,
-  C17_RightHandler |-> C17_RightHandler, C17_AtMostOnce |-> C17_AtMostOnce, C17_NoneDropped |-> C17_NoneDropped,
+  C17_RightHandler |-> C17_RightHandler, C17_AtMostOnce |-> C17_AtMostOnce, C17_NoneDropped |-> C17_NoneDropped, C17_HandleReturns |-> C17_HandleReturns,
   C18_TimeoutClosesAndReports |-> C18_TimeoutClosesAndReports, C18_NoStall |-> C18_NoStall ]
 
 Failing == {n \in DOMAIN Obs : ~Obs[n]}
